@@ -91,6 +91,11 @@ func c29NewEnv(t *testing.T) *c29Env {
 		t.Fatalf("storage: %v", err)
 	}
 	arc, err := database.New(&database.Config{MemoryLimit: "1GB", ThreadCount: 2, MaxConnections: 4, LocalStorageRoot: store.GetBasePath()}, logger)
+	// database.New bounds its sandbox lock-down with a 5 s context; on an overloaded machine that is start-up
+	// latency, not the property: retry instead of failing the case.
+	for attempt := 0; err != nil && attempt < 7; attempt++ {
+		arc, err = database.New(&database.Config{MemoryLimit: "1GB", ThreadCount: 2, MaxConnections: 4, LocalStorageRoot: store.GetBasePath()}, logger)
+	}
 	if err != nil {
 		t.Fatalf("database.New: %v", err)
 	}
